@@ -48,6 +48,7 @@ var awkward = []string{
 	" lead space", "trail space ", "multi\nline", "tab\there", "ctrl\x01\x02x", "esc\x1b[31mred", "nel\u0085x", "nbsp\u00a0x", "ls\u2028x", "bom\ufeffx",
 	"bad\xffutf8", "\xc3\x28", "", " ", "|", ">", "> folded", "| literal", "!!binary aGk=", "&anchor x", "*alias", "%directive", "@at", "`tick`",
 	"a: b: c", "- ", "---", "...", "\tstart tab", "cr\r\nlf", "é", "日本語 ファイル", "emoji 😀", "back\\slash", "quote\"inside", "it's", "2026-01-01", "12:30:45",
+	"\nleading newline", "\n- ]", "\n\nx", "\n", "\t\nx", "\n  indented", "\n#c", " \n", "x\n\n", "\r", "\n\t",
 	"=", "<<", strings.Repeat("設", 20), strings.Repeat("ж", 30) + " tar", strings.Repeat("é", 26), "find . -name '*.go' -exec gofmt -w {} \\;", "awk '{print \"Lines:\" $1}'", strings.Repeat("long", 300), "y", "Off", ".inf", "-.5", "\"", "'", "\\",
 }
 
